@@ -25,7 +25,10 @@ STRENGTHENED = {
     'C15-m10', 'C16-m10', 'C17-m10', 'C18-m10', 'C20-m8', 'C20-m10',
     # wave 4
     'C01-m11', 'C01-m13', 'C02-m11', 'C02-m13', 'C03-m11', 'C03-m12', 'C04-m11', 'C04-m13', 'C05-m12', 'C06-m11',
-    'C08-m12', 'C09-m13', 'C11-m13', 'C12-m13', 'C15-m11', 'C17-m13', 'C18-m12'}
+    'C08-m12', 'C09-m13', 'C11-m13', 'C12-m13', 'C15-m11', 'C17-m13', 'C18-m12',
+    # wave 5 (C14-m15 and C18-m14: strengthened from the author's report before the first evaluation)
+    'C01-m15', 'C02-m16', 'C04-m14', 'C04-m16', 'C05-m16', 'C07-m16', 'C08-m15', 'C14-m14', 'C14-m15', 'C16-m15',
+    'C18-m14'}
 
 
 def title(notes):
